@@ -62,6 +62,7 @@ type Server struct {
 	log           *slog.Logger
 	httpServer    *http.Server
 	referrerCache *cache.Cache[referrerKey, referrerResponses]
+	referrerMu    sync.Mutex // serializes the read-modify-write of referrers responses
 	rateLimit     *cache.Cache[string, *rateLimitEntry]
 }
 
